@@ -149,6 +149,12 @@ func main() {
 	os.Setenv("GOFLAGS", "-mod=mod")
 	os.Setenv("GOPROXY", "off")
 	os.Setenv("GOTOOLCHAIN", "local")
+	if d := os.Getenv("GOSYM_REPO"); d != "" {
+		repoDir = d // mutation self-tests: a scratch worktree of the repository
+	}
+	if d := os.Getenv("GOSYM_OUT"); d != "" {
+		outDir = d // evidence / replays of self-test runs go elsewhere
+	}
 	if d := os.Getenv("GOSYM_HARNESS_DIR"); d != "" {
 		harnessDir = d // development only: harness files from a scratch directory
 	}
